@@ -47,7 +47,8 @@ Definition agree (c : case) : bool :=
    managers read corner forms differently ("W/" , anchors kept in the wallet part), the observed
    set is checked against a band:
      hi (nothing outside may be used): offered now and covered by some specifier (or in a wallet
-        literally named by a wallet-only specifier);
+        literally named by a wallet-only specifier: W, W/ or W/.* -- "all accounts in W", which
+        dirk's short circuit extends to names with a line feed that `.` does not match);
      lo (everything inside must be used): offered now, unlockable, and covered by a plain
         specifier (no anchor characters, at most one "/", non-empty account part when there is
         a "/") whose wallet part is literally the wallet's name.
@@ -64,7 +65,7 @@ Section Spec.
         match rest with
         | [] => Some (strip_anchors p0, any_text, true)
         | x :: _ => if String.eqb x ""%string then Some (strip_anchors p0, any_text, true)
-                    else Some (strip_anchors p0, strip_anchors x, false)
+                    else Some (strip_anchors p0, strip_anchors x, String.eqb (strip_anchors x) any_text)
         end
     end.
 
